@@ -189,6 +189,35 @@ pub open spec fn expected(t: SortedWritesTable, out: Seq<(RowId, Seq<Value>)>, t
 //@ end-fn
 //@ end-impl
 
+// ---------------- rebuild_incremental, serial branch: the staging half (same loop, third copy) -------------------
+//@ impl core-relations/src/table/rebuild.rs impl SortedWritesTable
+//@ lift core-relations/src/table/rebuild.rs rebuild_incremental afterloop 1 as rebuild_incremental_stage
+//@ header pub fn rebuild_incremental_stage(&self, mut scratch: TaggedRowBuffer, changed: bool, next_ts: Value) -> (r: bool)
+//@ rewrite R-ITERPAIRMUT 0
+//@ rewrite R-MACRO insert_row
+//@ rewrite R-CLOSANN 0 &[Value] &[Value]
+//@ at sig
+        requires self.shape_ok(),
+            forall|i: int| 0 <= i < scratch@.len() ==> (#[trigger] scratch@[i]).0.ix() < self.data@.len() && scratch@[i].1.len() == self.n_columns,
+        ensures r == changed,
+//@ at loop 0 spec
+                invariant
+                    self.shape_ok(), __j0 <= __n0, __n0 == __v0@.len(), __n0 == out0.len(),
+                    forall|i: int| __j0 <= i < __n0 ==> (#[trigger] __v0@[i]).0 == out0[i].0 && __v0@[i].1@ == out0[i].1,
+                    forall|i: int| 0 <= i < out0.len() ==> (#[trigger] out0[i]).0.ix() < self.data@.len() && out0[i].1.len() == self.n_columns,
+                    // exactly the removals and re-stamped insertions the scanned subsets call for have been staged
+                    write_buf.log() == expected(*self, out0, next_ts, __j0 as nat),
+                decreases __n0 - __j0
+//@ at closure 0 spec
+                        requires x@.len() >= self.n_keys
+                        ensures r@ == x@.subrange(0, self.n_keys as int)
+//@ at before-loop 0
+                let ghost out0 = scratch@;
+//@ at after-loop 0
+                proof { assert(write_buf.log() == expected(*self, out0, next_ts, out0.len())); }
+//@ end-fn
+//@ end-impl
+
 // ---------------- refresh_rows_for_values: the staging half (C14 / C03) ------------------------------------------
 /// what the refresh must stage for the candidates ids[0..j): every live candidate row is removed and re-inserted
 /// unchanged except for its sort column, which becomes next_ts (so seminaive treats it as a fresh parent-row delta)
